@@ -465,7 +465,9 @@ func init() {
 		if len(judged) > 1 {
 			samples = append(samples, judged[len(judged)/2], judged[len(judged)-1])
 		}
+		csCov := clientSessionEngine(run, tier)
 		run.Finish("model_checking", evid.Coverage{
+			"clientsession": csCov,
 			"states": mc.Distinct, "transitions": mc.Generated,
 			"traces_validated_against_impl": len(judged), "scenarios": len(scs),
 			"samples": samples, "checker_cmd": mc.Cmd,
